@@ -567,7 +567,7 @@ PROPS["C17"] = {
                   "embedded in the DID and the update commitment of the embedded delta; the result is the transformation of a state whose document is the composer's result for the embedded "
                   "delta's patches on the empty document, that delta being valid and hash-bound to the embedded suffix data (resolve_is_what_was_created); the DID ProcessOperation returns resolves on the same handler to the very result it returned, for every namespace containing a colon and every create request whose "
                   "re-marshalled form has no numbers (process_result_resolves: base64url, UTF-8, JSON reader and re-marshalling round trips; the driver evaluates these premises on every "
-                  "process case of the stream); the model's protocol value equals the literal in config/protocol.go. 'Resolves to a document equivalent to the one supplied' and "
+                  "process case of the stream), and so does the DID VDR.Create returns (vdr_create_resolves, the same premise on the request the client builds); the model's protocol value equals the literal in config/protocol.go. 'Resolves to a document equivalent to the one supplied' and "
                   "'creation is deterministic' rest on the correspondence (ProcessOperation then ResolveDocument compared in full; VDR.Create repeated).",
     "level_note": "Trusted: Lean kernel; extractor; harness. did-go's document (un)marshalling used by VDR.Create/Read is not modelled: the VDR stream checks the round trip with an oracle "
                   "written in the harness (key ids, purposes, services, also-known-as survive; same input gives the same DID).",
